@@ -38,6 +38,47 @@ print("RELOAD-OK" if ok else "RELOAD-STALE")
     return "RELOAD-OK" in p.stdout, p.stdout[-300:]
 
 
+def _monitor_violation(prop, slug, obligation, details, code):
+    import json, os
+    path = os.path.join(driver.VERIF, "replays", f"{prop}-{slug}.json")
+    os.makedirs(os.path.dirname(path), exist_ok=True)
+    json.dump({"harness": "none", "property": prop, "obligation": obligation, "failing_inputs": details}, open(path, "w"), indent=1)
+    print(f"VIOLATION property={prop} replay={path}")
+    print(f"  failed obligation: {obligation} (run-time contract on the real code, bounded)")
+    return 1 if code in (0, 2) else code
+
+
+def gym_registry_monitor(prop, tree, code, ev):
+    """C10 / C12: the gymnasium.make() registration table (module-level code, not a function under contract)"""
+    from checks import gym_monitor
+    r = gym_monitor.run(tree)
+    if ev is not None:
+        ev["coverage"]["gym_registration_monitor"] = {k: v for k, v in r.items() if k != "bad"} | {"failures": len(r.get("bad", []))}
+    if r.get("error"):
+        print(f"CHECKER-FAILURE property={prop}: gym registration monitor crashed: {r['error'][-300:]}")
+        return 3 if code == 0 else code
+    if r["bad"]:
+        code = _monitor_violation(prop, "gym-registration", "nasim.__init__:registration:" + prop +
+                                  ".registered-id-builds-the-documented-modes", r["bad"][:5], code)
+        if ev is not None:
+            ev["violations"] = ev.get("violations", 0) + 1
+    return code
+
+
+def hops_frame_monitor(prop, tree, code, ev):
+    """C06 / C20: get_minimal_hops_to_goal (assumed at call sites) must not modify the goal list it is handed"""
+    from checks import c20_hops
+    r = c20_hops.frame_check(tree)
+    if ev is not None:
+        ev["coverage"]["hops_frame_monitor"] = {"calls": r["calls"], "failures": len(r["bad"])}
+    if r["bad"]:
+        code = _monitor_violation(prop, "hops-frame", "nasim.envs.utils.get_minimal_hops_to_goal:frame:" + prop +
+                                  ".arguments-untouched", r["bad"][:3], code)
+        if ev is not None:
+            ev["violations"] = ev.get("violations", 0) + 1
+    return code
+
+
 def run(prop, tier, tree, record):
     if prop in OTHER_PROPS:
         code, ev = driver.check_property(prop, tier=tier, tree=tree, record=record, level="other",
@@ -70,6 +111,10 @@ def run(prop, tier, tree, record):
     if prop in PROOF_PROPS:
         code, ev = driver.check_property(prop, tier=tier, tree=tree, record=record, level="proof",
                                          design_ref=PROOF_PROPS[prop])
+        if prop in ("C10", "C12"):
+            code = gym_registry_monitor(prop, tree, code, ev)
+        if prop == "C06":
+            code = hops_frame_monitor(prop, tree, code, ev)
         if ev is not None:
             driver.write_evidence(prop, ev)
         return code
@@ -118,6 +163,7 @@ def run_c20(tier, tree, record):
     import json, os
     from checks import c20_hops
     code, ev = driver.check_property("C20", tier=tier, tree=tree, record=record, level="other", design_ref="5/C20")
+    code = hops_frame_monitor("C20", tree, code, ev)
     r = c20_hops.run(tree, tier)
     if r.get("reference_mismatch"):
         print("CHECKER-FAILURE: C20 the two independent reference computations of W disagree")
